@@ -37,6 +37,7 @@ impl Prop for C14 {
             seed: 1,
             use_sim_fn,
             trigger_delay_us: 0,
+            layered: false,
         };
         out.evaluations += 1;
         match run_sim(&c) {
